@@ -956,7 +956,7 @@ def finding_key(case, c, impl, model):
     if "required-written" in causes:
         return "mutates-cls._required:structure_to_schema"
     if "instantiable" in causes:
-        return "mro-resolved-serialize-skips-generation:_verify_is_fast_serializable"
+        return "mro-read:cls.serialize:_verify_is_fast_serializable"
     if causes:
         return "model-predicted:" + "+".join(sorted(set(causes)))
     return "unexplained-interference"
